@@ -696,10 +696,20 @@ PROPERTY = Property(
          "of depth <= 3 with and/or/not/selectors; 1-2 conditions) x random backend configurations (6 precedence orders, parenthesize, "
          "OR/AND-as-in with/without wildcards, not-equals mode, explicit not-exists, native CIDR, presence of startswith/endswith/contains/"
          "wildcard-match/case-sensitive expressions). non-trivial = condition tree of depth >= 2; distinct by case hash. "
-         "Truth tables over all 2^n assignments of the (<= 9) atoms are compared inside Coq.",
-    assumptions=["leaf rendering (templates, escape_and_quote_field, convert_value_str) is taken from the implementation per leaf and "
-                 "checked by decoding each atom of the final query back to (field, match kind, decoded value) in the harness (props/c01.py "
-                 "decode_atom) - this reader and the reference-semantics builder are trusted Python",
+         "Truth tables over all 2^n assignments of the (<= 9) atoms are compared inside Coq. Suite leaf: field names (quotes, "
+         "escapes, blanks, delimiters, non-ASCII, keywords of the target language) x values of every kind (strings over an "
+         "alphabet with wildcards, escapes, quotes, delimiters, operator characters; numbers; booleans; null; regular expressions "
+         "with flags; CIDR; comparisons; timestamp parts; exists; field references; unbound values) x verification backend flag "
+         "sets incl. pattern-controlled string quoting and overlapping field escape pattern, and the shipped test backend with "
+         "attribute variations; both the normal and the negated-template rendering.",
+    assumptions=["suite struct takes the text of each leaf from the implementation and checks it by decoding each atom of the final "
+                 "query in the harness (props/c01.py decode_atom, trusted Python); the rendering of a leaf itself is modelled "
+                 "(Model/Leaf.v from the exported class attributes) and read back by Spec/Atom.v inside Coq in suite leaf "
+                 "(theorems C01_leaf_faithful, C01_leaf_unbound_faithful, C01_leaf_string_meaning); oracles of the leaf model: match "
+                 "positions of field_escape_pattern, the field_quote_pattern / str_quote_pattern decisions (computed with re in the "
+                 "harness), str() of numbers and networks, Python's \\w on non-ASCII characters",
+                 "leaf suite, not modelled: SigmaQueryExpression values, placeholders inside regular expressions, deferred "
+                 "expressions, in-list rendering of values (the list syntax itself is in Model/Backend.v)",
                  "the reference meaning starts from the detection items after modifier application (modifiers themselves are C03/C04)",
                  "deferred query parts and None arguments (dropped detection items) are outside the model; such cases are skipped and counted"],
 )
